@@ -279,6 +279,33 @@ def oracle_accumulation(case):
                 fails.append({'what': 'a demography extended by add_event after it had been queried gives another mean than the same demography built at once',
                               'dist': dist, 'after_add_event': x, 'built_at_once': y, 'event': ev,
                               't_max_after_add_event': float(second.tree_height.t_max), 't_max_built_at_once': float(ref.tree_height.t_max)})
+    # the rates in force from time 0 are changed AFTER a query that ended inside the first epoch (same object, same
+    # state space): the next windowed moment must be that of the demography now held
+    if spec.get('end_time') is None and not spec.get('start_time'):
+        p0 = spec['n_items'][0][0]
+        obj = build.coalescent(spec)
+        _ = obj.tree_height.moment(1, end_time=0.0625)
+        s0 = float(next(iter(sorted(spec['pop_sizes'][p0].items(), key=lambda kv: float(kv[0]))))[1])
+        obj.demography.add_event(pg.PopSizeChange(pop=p0, time=0, size=4.0 * s0))
+        ev0 = dict(type='PopSizeChange', pop=p0, time=0.0, size=4.0 * s0)
+        ref = build.coalescent(dict(spec, late_events=[ev0]))
+        for dist in ('tree_height', 'total_branch_length'):
+            n += 1
+            x, y = getattr(obj, dist).moment(1, end_time=2.0), getattr(ref, dist).moment(1, end_time=2.0)
+            if not rel(x, y, 1e-9):
+                fails.append({'what': 'after a query, a change of the rates in force from time 0 is not honoured by the next windowed moment of the same object',
+                              'dist': dist, 'same_object': x, 'fresh_object': y, 'event': ev0})
+    # a tree-height distribution assembled by hand on a freshly made state space (which sits in the default epoch): the
+    # FIRST windowed evaluation must already use the demography's own rates
+    if spec.get('end_time') is None and not spec.get('start_time') and spec.get('loci', 1) == 1:
+        own = build.coalescent(spec)
+        hand = pg.distributions.TreeHeightDistribution(state_space=pg.state_space.LineageCountingStateSpace(lineage_config=own.lineage_config, locus_config=own.locus_config, model=own.model),
+                                         demography=own.demography)
+        n += 1
+        x, y = hand.moment(1, end_time=2.0), own.tree_height.moment(1, end_time=2.0)
+        if not rel(x, y, 1e-9):
+            fails.append({'what': 'first windowed moment of a tree-height distribution assembled on a fresh state space differs from the Coalescent\'s own',
+                          'hand_made': x, 'coalescent': y})
     # end-time routes
     T = case['T']
     for dist in ('tree_height', 'total_branch_length'):
@@ -394,6 +421,15 @@ def oracle_marginals(case):
     fails, n = [], 0
     spec = case['spec']
     h = build.capture()
+    for ps in case.get('prelude', []):
+        # another configuration (another model family, the same layout) whose marginals are read EARLIER in the same process
+        pc = build.coalescent(ps)
+        with warnings.catch_warnings():
+            warnings.simplefilter('ignore')
+            for p_ in pc.lineage_config.pop_names:
+                pc.tree_height.demes[p_].mean
+                if ps.get('loci', 1) == 1:
+                    pc.sfs.demes[p_].mean
     c = build.coalescent(spec)
     pops = list(c.lineage_config.pop_names)
     dists = [('tree_height', c.tree_height), ('total_branch_length', c.total_branch_length)]
@@ -574,6 +610,20 @@ def oracle_routes(case):
                + 2 * means[0] * means[1] * means[2])
     scale = max(abs(raw(rs)), abs(np.prod(means)), 1e-12)
     checks.append((f'central moment of order {k} = combination of raw moments', cen, exp, ('abs', 1e-8 * scale)))
+    # order 4 with REPEATED rewards (two distinct rewards, each twice, in several orders): central = inclusion-exclusion over
+    # all index subsets of the raw joint moments (subsets with the same members but other multiplicities are different moments)
+    import itertools
+    a_, b_ = rs[0], rs[1]
+    for tup4 in ((a_, a_, b_, b_), (a_, b_, a_, b_), (b_, b_, a_, a_), (a_, b_, b_, b_)):
+        mu = [raw([r]) for r in tup4]
+        exp4 = 0.0
+        for m_ in range(0, 5):
+            for S in itertools.combinations(range(4), m_):
+                rest = [i for i in range(4) if i not in S]
+                exp4 += (-1) ** len(rest) * (raw([tup4[i] for i in S]) if S else 1.0) * float(np.prod([mu[i] for i in rest]))
+        sc4 = max(abs(raw(list(tup4))), abs(float(np.prod(mu))), 1e-12)
+        checks.append(('central moment of order 4 with repeated rewards ' + ''.join('a' if r is a_ else 'b' for r in tup4) + ' = inclusion-exclusion of raw moments',
+                       c.moment(4, tuple(tup4), center=True), exp4, ('abs', 1e-7 * sc4)))
     perm = list(reversed(rs))
     checks.append(('cross moment symmetric in its rewards', c.moment(k, tuple(perm), center=True), cen, ('abs', 1e-9 * scale)))
     # linearity of sums, products pointwise
